@@ -45,7 +45,12 @@ fn emit<T: Serialize + DeserializeOwned>(out: &mut Out, ty: &str, v: &T, i: usiz
     let tail = [0x55u8, 0x00];
     let r = catch(|| -> Result<_, String> {
         let tree = call_tree(v).map_err(|x| x.0)?;
-        let bytes = enc(v, e).map_err(|x| errname(&x).to_string())?;
+        let bytes = match enc(v, e) {
+            // a value larger than the harness's fixed buffers says nothing about the property: use the growable entry
+            Err(postcard::Error::SerializeBufferFull) if e <= 1 => enc(v, 2),
+            r => r,
+        }
+        .map_err(|x| errname(&x).to_string())?;
         let mut input = bytes.clone();
         input.extend(tail);
         let mut scratch = vec![0u8; input.len() + 16];
